@@ -1013,7 +1013,7 @@ func blockCoverage(table string, hits map[int]uint64, anchors []string) map[stri
 // is reported as no-progress); kept here so the evidence can show the margin.
 func stepBudget(id string) int {
 	return map[string]int{"C04": 12000, "C05": 12000, "C09": 12000, "C10": 30000, "C17": 8000, "C18": 8000, "C19": 6000,
-		"C01": 100000, "C02": 200000, "C03": 1000000, "C06": 100000, "C07": 100000, "C11": 100000, "C16": 100000}[id]
+		"C01": 100000, "C02": 200000, "C03": 4000000, "C06": 100000, "C07": 100000, "C11": 100000, "C16": 100000}[id]
 }
 
 func annotateReplay(path, sig, detail string) {
